@@ -363,7 +363,8 @@ theorem Ptrs_forceDelG (s : St) (g : Nat) (hI : Ptrs s) : Ptrs (forceDelG s g) :
       first | done | simp (maxDischargeDepth := 8) only [ptrs_invalidateTrackable, ptrs_gcImpl, *]
 
 theorem Ptrs.collect (s : St) (hI : Ptrs s) : Ptrs (collect s) :=
-  Ptrs.prims.collect (fun _ _ h => h) (fun _ f h => ⟨h.1, h.2.1, h.2.2.filter f⟩) hI
+  Ptrs.prims.collect (fun _ _ h => h) (fun _ f h => ⟨h.1, h.2.1, h.2.2.filter f⟩)
+    (dropG_of (fun _ _ h => h) Ptrs_forceDelG) hI
 
 /-- the basic invariants together -/
 def Base (s : St) : Prop := WF s ∧ HOK s
